@@ -313,7 +313,66 @@ func ByBuiltins(a, b int) int {
 	xs := ap(nil, a)
 	return vrt.V(%[6]d, l("abc")+int(cv(a))+id(b)+pk()+len(xs)+pinit+mb.OnesCount(uint(a+8)))
 }
-`, k1, k2, k3, tag(), tag(), tag(), tag(), tag(), tag(), tag())
+
+func sumOf(xs []int) int {
+	s := 0
+	for _, x := range xs {
+		s += x
+	}
+	return s
+}
+
+func countOf(xs ...any) int { return len(xs) }
+
+func totalOf(xs ...int) int { return sumOf(xs) + 1 }
+
+// forwarding literals that differ from their callee only in how a variadic parameter is
+// declared or passed on; the dynamic type of a literal is observed through 'any'
+func ByVariadic(a, b int) int {
+	fns := map[string]any{
+		"sum": func(xs ...int) int { return sumOf(xs) },
+		"tot": func(xs []int) int { return totalOf(xs...) },
+		"fwd": func(xs ...int) int { return totalOf(xs...) },
+	}
+	cnt := func(xs ...any) int { return countOf(xs) } // xs is ONE argument of countOf
+	tot := func(...int) int { return totalOf() }      // unnamed parameter: nothing is forwarded
+	kinds := 0
+	for _, k := range []string{"sum", "tot", "fwd"} {
+		switch f := fns[k].(type) {
+		case func(...int) int:
+			kinds = kinds*10 + 1 + f(a, b)%%3
+		case func([]int) int:
+			kinds = kinds*10 + 5 + f([]int{a, b})%%3
+		}
+	}
+	return vrt.V(%[11]d, kinds*1000+cnt(1, 2, 3)*100+tot(a, b, 3))
+}
+
+func ByGenericCallee(a, b int) int {
+	f := func(x int) int { return idT(x) } // type argument inferred from the call
+	g := func(x int) int { return idT[int](x) }
+	return vrt.V(%[12]d, f(a)*10+g(b))
+}
+
+func dblWide(c wide) wide { return c * 2 }
+
+func anyWide(c wide) any { return c + 1 }
+
+// 'wide' is declared in a plain sibling file: the optimise stage, which reloads the
+// rewritten files only, cannot resolve it
+func ByPartialPkg(a, b int) int {
+	var conv any = func(c wide) any { return dblWide(c) } // NOT a func(wide) wide
+	same := func(c wide) any { return anyWide(c) }
+	r := 0
+	switch f := conv.(type) {
+	case func(wide) any:
+		r = 1
+	case func(wide) wide:
+		r = 2 + int(f(wide(a)))
+	}
+	return vrt.V(%[13]d, r*100+int(same(wide(b)).(wide)))
+}
+`, k1, k2, k3, tag(), tag(), tag(), tag(), tag(), tag(), tag(), tag(), tag(), tag())
 	genSrc := fmt.Sprintf(`func optRows(n int) «Iter[[]int]» {
 	for i := 0; i < n; i++ {
 		«Yield»([]int{0, 0}) // an all-literal slice: a fresh one per iteration
@@ -366,6 +425,88 @@ func OptEtaInGen(a, b int) «Iter[int]» {
 	return nil
 }
 
+type page struct {
+	items []int
+	next  *page
+	pos   int
+}
+
+func (p *page) more() bool { return p.pos < len(p.items) }
+
+func (p *page) take() int { p.pos++; return p.items[p.pos-1] }
+
+func mkPages(a, b int) *page {
+	p3 := &page{items: []int{a + 5, b + 6}}
+	p2 := &page{items: []int{b + 3}, next: p3}
+	if b > 2 {
+		p2.items = nil
+	}
+	return &page{items: []int{a + 1, a + 2}, next: p2}
+}
+
+// reader embeds a POINTER: the promoted method value r.more would read r.page when it is
+// created, the call r.more() reads it when it is made
+type reader struct{ *page }
+
+func (r *reader) turn() bool {
+	if r.page.next == nil {
+		return false
+	}
+	r.page = r.page.next
+	return true
+}
+
+func OptPromotedPtr(a, b int) «Iter[int]» {
+	r := &reader{mkPages(a, b)}
+	for {
+		for r.more() {
+			vrt.E(%[4]d, r.pos)
+			«Yield»(r.take())
+		}
+		if !r.turn() {
+			break
+		}
+	}
+	return nil
+}
+
+type counter struct{ n int }
+
+func (c *counter) Advance() bool { c.n--; return c.n >= 0 }
+
+// holder embeds a VALUE: x.Advance is (&x.counter).Advance, which dereferences x when
+// the method value is created
+type holder struct{ counter }
+
+func OptPromotedNil(a, b int) «Iter[int]» {
+	var x *holder
+	if a > 1 {
+		x = &holder{counter{a}}
+	}
+	if b > 0 {
+		vrt.E(%[5]d)
+		«Yield»(-1)
+	}
+	for x.Advance() { // x == nil: the panic belongs to the step that evaluates the condition
+		«Yield»(x.n)
+	}
+	return nil
+}
+
+func OptPromotedNilClosure(a, b int) «Iter[int]» {
+	var x *holder
+	if a > 2 {
+		x = &holder{counter{a}}
+	}
+	adv := func() bool { return x.Advance() } // created before the yield, called after it
+	«Yield»(b)
+	vrt.E(%[6]d)
+	if adv() {
+		«Yield»(x.n)
+	}
+	return nil
+}
+
 func OptDelay(a, b int) (_ «Iter[int]») {
 	x := a
 	if b > 0 {
@@ -387,8 +528,11 @@ func OptDelay(a, b int) (_ «Iter[int]») {
 	}
 	return
 }
-`, tag(), tag(), k2)
+`, tag(), tag(), k2, tag(), tag(), tag())
 	genRef := strings.NewReplacer(
+		"func OptPromotedPtr(a, b int) «Iter[int]» {\n", "func OptPromotedPtr(a, b int) «Iter[int]» {\n\treturn refco.Go(func(ʏ *refco.Y[int]) {\n",
+		"func OptPromotedNil(a, b int) «Iter[int]» {\n", "func OptPromotedNil(a, b int) «Iter[int]» {\n\treturn refco.Go(func(ʏ *refco.Y[int]) {\n",
+		"func OptPromotedNilClosure(a, b int) «Iter[int]» {\n", "func OptPromotedNilClosure(a, b int) «Iter[int]» {\n\treturn refco.Go(func(ʏ *refco.Y[int]) {\n",
 		"func optRows(n int) «Iter[[]int]» {\n", "func optRows(n int) «Iter[[]int]» {\n\treturn refco.Go(func(ʏ *refco.Y[[]int]) {\n",
 		"func optMaps(n int) «Iter[map[int]int]» {\n", "func optMaps(n int) «Iter[map[int]int]» {\n\treturn refco.Go(func(ʏ *refco.Y[map[int]int]) {\n",
 		"func OptLoopCond(a, b int) «Iter[int]» {\n", "func OptLoopCond(a, b int) «Iter[int]» {\n\treturn refco.Go(func(ʏ *refco.Y[int]) {\n",
@@ -414,6 +558,12 @@ func OptDelay(a, b int) (_ «Iter[int]») {
 		mk("OptLoopCond", true, "loop_condition_calls_reassigned_variable"),
 		mk("OptEtaInGen", true, "eta_shape_inside_generator", "import_used_only_by_generator_code", "import_dot"),
 		mk("OptDelay", true, "delay_elision_shapes"),
+		mk("ByVariadic", false, "eta_shape_variadic_forwarding_and_unnamed_parameters"),
+		mk("ByGenericCallee", false, "eta_shape_generic_callee_inferred_type_argument"),
+		mk("ByPartialPkg", false, "eta_shape_types_from_a_plain_sibling_file"),
+		mk("OptPromotedPtr", true, "loop_condition_promoted_method_through_embedded_pointer"),
+		mk("OptPromotedNil", true, "loop_condition_promoted_method_nil_receiver"),
+		mk("OptPromotedNilClosure", true, "eta_shape_promoted_method_nil_receiver"),
 	}
 	return
 }
